@@ -12,8 +12,8 @@
 // Kind Kb harnesses are bounded in their INPUT FAMILY (a fixed DER / text shape with symbolic octets,
 // or ranges confined to 4 low bits for the decomposition cross-checks); they are never counted as proofs.
 //
-// Harnesses marked FINDING fail on the unchanged tree and expose genuine defects (each reproduced
-// natively; see the comments at each of them):
+// The following harnesses FAILED on the tree before /repo commits 07d3485 and f7cbdfa and exposed genuine
+// defects (each reproduced natively; now repaired, see /verif/known_findings.txt):
 //   bl_asn_count_total, bl_as_der_count           asn_count overflows on the whole range 0-4294967295
 //   bl_as_der_lo_le_hi, bl_as_text_lo_le_hi,
 //   bl_ip_der_lo_le_hi, bl_ip_der_family_lo_le_hi  decoders / parsers accept ranges with min > max
@@ -159,14 +159,14 @@ mod verif_block_leaves_as {
             assert!(n as u64 == card(0, hi) || (card(0, hi) > u32::MAX as u64 && n == u32::MAX), "count of a decoded block");
         }
     }}
-    // FINDING (text form): "3-1" parses to the block AS3-AS1: AsBlock::from_str does not check min <= max.
+    // (was a FINDING, repaired by /repo commit 07d3485: "3-1" used to parse to the block AS3-AS1)
     //@harness bl_as_text_lo_le_hi Kb fn=AsBlock::from_str bound="strings d-d with one decimal digit on each side"
     verif_harness!{ #[kani::unwind(6)] bl_as_text_lo_le_hi; |a: u8, b: u8| {
         assume(a >= b'0' && a <= b'9' && b >= b'0' && b <= b'9');
         let buf = [a, b'-', b];
         let s = core::str::from_utf8(&buf[..]).unwrap();
         let r = AsBlock::from_str(s);
-        assert!(r.is_ok(), "digit-digit parses");
+        assert!(r.is_ok() == (a <= b), "digit-digit parses exactly when the range is not inverted");
         if let Ok(blk) = r {
             assert!(val(blk.min()) == (a - b'0') as u32 && val(blk.max()) == (b - b'0') as u32, "parsed bounds");
             assert!(blk.min() <= blk.max(), "a parsed AS range has min <= max");
@@ -393,7 +393,7 @@ mod verif_block_leaves_ip {
     // ---------------- bounded cross-check of the decomposition on the compiled code ----------
     // (the complete proofs are in the Verus unit range_prefixes; these runs exercise the real
     // `impl Iterator` return value, i.e. what rules R10/R12 abstract from)
-    //@harness bl_v4_prefixes_kb_n4 Kb fn=AddressRange::to_v4_prefixes bound="min and max agree above the low 4 bits (at most 6 prefixes)"
+    //@harness bl_v4_prefixes_kb_n4 Kb fn=AddressRange::to_v4_prefixes bound="min and max agree above the low 4 bits (at most 6 prefixes)" thorough
     verif_harness!{ #[kani::unwind(9)] bl_v4_prefixes_kb_n4; |a: u32, b: u32| {
         assume(a >> 4 == b >> 4);
         let r = AddressRange::new(Addr::from(Ipv4Addr::from(a)), Addr::from(Ipv4Addr::from(b)).to_max(32));
@@ -415,7 +415,7 @@ mod verif_block_leaves_ip {
         assert!(n <= 6 && it.next().is_none(), "at most 2*4-2 prefixes");
         if a <= b { assert!(next == b as u64 + 1, "the union ends at max"); } else { assert!(n == 0, "empty for min > max"); }
     }}
-    //@harness bl_v6_prefixes_kb_n4 Kb fn=AddressRange::to_v6_prefixes bound="min and max agree above the low 4 bits (at most 6 prefixes)"
+    //@harness bl_v6_prefixes_kb_n4 Kb fn=AddressRange::to_v6_prefixes bound="min and max agree above the low 4 bits (at most 6 prefixes)" timeout=1200 thorough
     verif_harness!{ #[kani::unwind(9)] bl_v6_prefixes_kb_n4; |a: u128, b: u128| {
         assume(a >> 4 == b >> 4);
         let r = AddressRange::new(ad(a), ad(b));
